@@ -80,15 +80,27 @@ func requestsWire(reqs []txnReq) []byte {
 }
 
 // responseWire builds the peer's _result for request (kind, tid) as chunk-stream bytes.
+// Every third response comes as an AMF3 command message (type 17: one format byte 0, then the same AMF0 body), as
+// peers that negotiated object encoding 3 send them.
+var c04RespN int
+
 func responseWire(kind string, tid float64) []byte {
 	var wire bytes.Buffer
 	peer := rtmp.NewProtocol(&h.RW{Writer: &wire})
+	var pk rtmp.Packet
 	if kind == "connect" {
-		peer.WritePacket(rtmp.NewConnectAppResPacket(amf0.Number(tid)), 0)
+		pk = rtmp.NewConnectAppResPacket(amf0.Number(tid))
 	} else {
 		res := rtmp.NewCreateStreamResPacket(amf0.Number(tid))
 		res.StreamID = amf0.Number(1)
-		peer.WritePacket(res, 0)
+		pk = res
+	}
+	c04RespN++
+	if c04RespN%3 == 0 {
+		body, _ := pk.MarshalBinary()
+		peer.WriteMessage(rtmp.VerifNewMessage(3, rtmp.MessageType(17), 0, 0, append([]byte{0}, body...)))
+	} else {
+		peer.WritePacket(pk, 0)
 	}
 	return wire.Bytes()
 }
